@@ -107,6 +107,8 @@ def fmtInt (i : Int) : Bytes :=
 
 /-! ## AST fragments -/
 
+def asc (s : String) : Bytes := s.toList.map Char.toNat
+
 structure Ann where
   key : Bytes
   vals : List Bytes
@@ -127,21 +129,40 @@ def annLoop (cfg : Cfg) : List Ann → Bytes
 def printAnnotation (cfg : Cfg) (a : List Ann) : Bytes :=
   if a.isEmpty then [] else ws cfg [40] ++ annLoop cfg a ++ ws cfg [41]
 
-/-- `parser.Type` as far as `typeName` reads it. -/
+/-- `printAnnotation` into a `stringBuilder{raw: true}` (no `&` escaping): used by `typeName`, whose result
+    is escaped once by the caller's `writeString`. -/
+def annPairsRaw (cfg : Cfg) (key : Bytes) (lastAnn : Bool) : List Bytes → Bytes
+  | [] => []
+  | v :: vs =>
+    (key ++ [32, 61, 32] ++ quoteVal cfg v)
+      ++ (if !lastAnn || !vs.isEmpty then [44, 32] else [])
+      ++ annPairsRaw cfg key lastAnn vs
+
+def annLoopRaw (cfg : Cfg) : List Ann → Bytes
+  | [] => []
+  | a :: rest => annPairsRaw cfg a.key rest.isEmpty a.vals ++ annLoopRaw cfg rest
+
+def printAnnotationRaw (cfg : Cfg) (a : List Ann) : Bytes :=
+  if a.isEmpty then [] else [40] ++ annLoopRaw cfg a ++ [41]
+
+/-- `parser.Type` as far as `typeName` reads it (`cpp` = CppType, "" when absent). -/
 inductive Ty where
-  | mk (name : Bytes) (key : Option Ty) (val : Option Ty) (anns : List Ann)
+  | mk (name : Bytes) (key : Option Ty) (val : Option Ty) (cpp : Bytes) (anns : List Ann)
   deriving Repr, Inhabited
 
-/-- `typeName`: note that the annotations go through a *nested* stringBuilder (escaped once here) and the
-    result is later passed to the outer `writeString` (escaped a second time). -/
+/-- `typeName`: `cpp_type "…"` after the keyword of map/set and after the `>` of list; the annotations go
+    through a raw nested stringBuilder, the whole result is escaped once by the caller's `writeString`. -/
 def typeName : Cfg → Ty → Bytes
-  | cfg, .mk name key val anns =>
+  | cfg, .mk name key val cpp anns =>
+    let cppT : Bytes := if cpp.isEmpty then [] else [32, 99, 112, 112, 95, 116, 121, 112, 101, 32] ++ quoteVal cfg cpp
     let base :=
       match key, val with
-      | some k, some v => name ++ [60] ++ typeName cfg k ++ [44] ++ typeName cfg v ++ [62]
-      | none, some v => name ++ [60] ++ typeName cfg v ++ [62]
+      | some k, some v => name ++ cppT ++ [60] ++ typeName cfg k ++ [44] ++ typeName cfg v ++ [62]
+      | none, some v =>
+        if name = [108, 105, 115, 116] then name ++ [60] ++ typeName cfg v ++ [62] ++ cppT
+        else name ++ cppT ++ [60] ++ typeName cfg v ++ [62]
       | _, none => name
-    base ++ printAnnotation cfg anns
+    base ++ printAnnotationRaw cfg anns
 
 /-- `parser.ConstTypedValue` with exactly one member set (what the parser produces); `dbl` carries the
     IEEE bits, rendered through the parameter `ff` = `strconv.FormatFloat(·, 'f', -1, 64)`. -/
@@ -155,10 +176,15 @@ inductive CV where
   | unset
   deriving Repr, Inhabited
 
+def hasDot (t : Bytes) : Bool := t.any (· == 46)
+
+/-- the text written for a double: FormatFloat's, with ".0" appended when it has no '.' -/
+def dblText (t : Bytes) : Bytes := if hasDot t then t else t ++ [46, 48]
+
 mutual
 /-- `printConstTypedValue` -/
 def printCV (cfg : Cfg) (ff : Nat → Bytes) : CV → Bytes
-  | .dbl b => ws cfg (ff b)
+  | .dbl b => ws cfg (dblText (ff b))
   | .int i => ws cfg (fmtInt i)
   | .lit v => ws cfg (quoteVal cfg v)
   | .ident s => ws cfg s
@@ -263,8 +289,6 @@ structure File where
   exceptions : List StructLike
   services : List Service
 
-def asc (s : String) : Bytes := s.toList.map Char.toNat
-
 def reqWord (r : Nat) : Bytes :=
   if r = 2 then asc "optional " else if r = 1 then asc "required " else []
 
@@ -296,45 +320,49 @@ def printStruct (cfg : Cfg) (ff : Nat → Bytes) (kind : Bytes) (s : StructLike)
     ++ (s.fields.map (printField cfg ff)).flatten
     ++ ws cfg (asc "} ") ++ printAnnotation cfg s.anns ++ ws cfg (asc "\n\n")
 
-/-- arguments: `i != len(f.Arguments)-1` -/
-def printArgs (cfg : Cfg) (nArgs : Nat) : Nat → List Field → Bytes
+/-- the argument loop and the throws loop: id, requiredness, type, name, default, annotations, and `, `
+    unless it is the last of its own list -/
+def printArgs (cfg : Cfg) (ff : Nat → Bytes) (n : Nat) : Nat → List Field → Bytes
   | _, [] => []
   | i, ag :: rest =>
     ws cfg (fmtInt ag.id ++ asc ": " ++ reqWord ag.req ++ typeName cfg ag.ty ++ asc " " ++ ag.name)
-      ++ sepIf cfg (decide (i + 1 ≠ nArgs)) (asc ", ")
-      ++ printArgs cfg nArgs (i + 1) rest
+      ++ (match ag.dflt with
+          | some d => ws cfg (asc " = ") ++ printCV cfg ff d
+          | none => [])
+      ++ printAnnotation cfg ag.anns
+      ++ sepIf cfg (decide (i + 1 ≠ n)) (asc ", ")
+      ++ printArgs cfg ff n (i + 1) rest
 
-def printFunction (cfg : Cfg) (f : Function) : Bytes :=
+def printFunction (cfg : Cfg) (ff : Nat → Bytes) (f : Function) : Bytes :=
   printComment cfg f.comment (asc "    ")
     ++ ws cfg (asc "    ")
     ++ sepIf cfg f.oneway (asc "oneway ")
     ++ ws cfg (typeName cfg f.ftype ++ asc " " ++ f.name)
     ++ ws cfg (asc "(")
-    ++ printArgs cfg f.args.length 0 f.args
+    ++ printArgs cfg ff f.args.length 0 f.args
     ++ ws cfg (asc ")")
     ++ (if f.throws.isEmpty then [] else
           ws cfg (asc "throws ") ++ ws cfg (asc "(")
-          -- the throws loop compares against len(f.Arguments), as the code does
-          ++ printArgs cfg f.args.length 0 f.throws
+          ++ printArgs cfg ff f.throws.length 0 f.throws
           ++ ws cfg (asc ")"))
     ++ printAnnotation cfg f.anns ++ ws cfg [10]
 
-def printService (cfg : Cfg) (svc : Service) : Bytes :=
+def printService (cfg : Cfg) (ff : Nat → Bytes) (svc : Service) : Bytes :=
   printComment cfg svc.comment []
     ++ ws cfg (asc "service " ++ svc.name ++ asc " ")
     ++ (if svc.ext.isEmpty then [] else ws cfg (asc "extends " ++ svc.ext ++ asc " "))
     ++ ws cfg (asc "{\n")
-    ++ (svc.functions.map (printFunction cfg)).flatten
+    ++ (svc.functions.map (printFunction cfg ff)).flatten
     ++ ws cfg (asc "} ") ++ printAnnotation cfg svc.anns ++ ws cfg (asc "\n\n")
 
 /-- the buffer `sb` of `DumpIDL` before the post-passes. -/
 def dumpBuffer (cfg : Cfg) (ff : Nat → Bytes) (f : File) : Bytes :=
-  (f.includes.map fun p => ws cfg (asc "include \"" ++ p ++ asc "\"\n")).flatten
+  (f.includes.map fun p => ws cfg (asc "include " ++ quoteVal cfg p ++ [10])).flatten
     ++ blankIf cfg f.includes
     ++ (f.namespaces.map fun ns =>
           ws cfg (asc "namespace " ++ ns.lang ++ asc " " ++ ns.name) ++ printAnnotation cfg ns.anns ++ ws cfg [10]).flatten
     ++ blankIf cfg f.namespaces
-    ++ (f.cppIncludes.map fun p => ws cfg (asc "cpp_include \"" ++ p ++ asc "\"\n")).flatten
+    ++ (f.cppIncludes.map fun p => ws cfg (asc "cpp_include " ++ quoteVal cfg p ++ [10])).flatten
     ++ blankIf cfg f.cppIncludes
     ++ (f.typedefs.map fun td =>
           printComment cfg td.comment [] ++ ws cfg (asc "typedef " ++ typeName cfg td.ty)
@@ -356,7 +384,7 @@ def dumpBuffer (cfg : Cfg) (ff : Nat → Bytes) (f : File) : Bytes :=
     ++ blankIf cfg f.unions
     ++ (f.exceptions.map (printStruct cfg ff (asc "exception"))).flatten
     ++ blankIf cfg f.exceptions
-    ++ (f.services.map (printService cfg)).flatten
+    ++ (f.services.map (printService cfg ff)).flatten
 
 /-- `DumpIDL` (new writer; `UseOldDumpFunction = false`). -/
 def dump (cfg : Cfg) (ff : Nat → Bytes) (f : File) : Bytes := finish cfg (dumpBuffer cfg ff f)
